@@ -121,9 +121,20 @@ impl TxWal {
         let file = OpenOptions::new().create(true).append(true).open(&path)?;
 
         // Get current file size
-        let current_size = file.metadata().map(|m| m.len()).unwrap_or(0);
+        let mut current_size = file.metadata().map(|m| m.len()).unwrap_or(0);
 
-        let entry_count = Self::count_entries(&path)?;
+        // Count existing entries and find where the last complete record ends
+        let (entry_count, valid_len) = Self::scan_entries(&path)?;
+
+        // A crash in the middle of a write leaves a partial record at the end of the
+        // file. Appending after it would bury the next record inside the torn one's
+        // declared length, so replay would lose it (or fail). Cut the torn tail off
+        // before accepting new writes.
+        if valid_len < current_size {
+            file.set_len(valid_len)?;
+            file.sync_all()?;
+            current_size = valid_len;
+        }
 
         Ok(Self {
             file: BufWriter::new(file),
@@ -134,15 +145,16 @@ impl TxWal {
         })
     }
 
-    /// Count entries in an existing WAL file.
-    fn count_entries(path: &Path) -> io::Result<u64> {
+    /// Count complete entries in an existing WAL file and the byte length they occupy.
+    fn scan_entries(path: &Path) -> io::Result<(u64, u64)> {
         if !path.exists() {
-            return Ok(0);
+            return Ok((0, 0));
         }
 
         let file = File::open(path)?;
         let mut reader = BufReader::new(file);
         let mut count = 0;
+        let mut valid_len = 0u64;
         let mut detected_format: Option<bool> = None; // None = unknown, Some(true) = V2, Some(false) = V1
 
         loop {
@@ -171,7 +183,10 @@ impl TxWal {
                 // V2: skip the remaining payload bytes
                 let mut data = vec![0u8; len];
                 match reader.read_exact(&mut data) {
-                    Ok(()) => count += 1,
+                    Ok(()) => {
+                        count += 1;
+                        valid_len += 8 + len as u64;
+                    },
                     Err(e) if e.kind() == io::ErrorKind::UnexpectedEof => break,
                     Err(e) => return Err(e),
                 }
@@ -180,17 +195,21 @@ impl TxWal {
                 if len > 4 {
                     let mut remaining = vec![0u8; len - 4];
                     match reader.read_exact(&mut remaining) {
-                        Ok(()) => count += 1,
+                        Ok(()) => {
+                            count += 1;
+                            valid_len += 4 + len as u64;
+                        },
                         Err(e) if e.kind() == io::ErrorKind::UnexpectedEof => break,
                         Err(e) => return Err(e),
                     }
                 } else {
                     count += 1;
+                    valid_len += 8;
                 }
             }
         }
 
-        Ok(count)
+        Ok((count, valid_len))
     }
 
     /// Check if bytes look like a bitcode discriminant start (legacy V1 format detection).
